@@ -14,7 +14,7 @@ cd $WT
 export CARGO_NET_OFFLINE=true
 cp $SRC/demo.rs $WT/$CRATE/tests/seed_demo.rs
 demo_without=$(cargo test --offline -p $CRATE --test seed_demo 2>&1 | grep -E "^test result" | tail -1)
-git apply $SRC/patch.diff || { echo "PATCH DOES NOT APPLY"; exit 3; }
+git apply $SRC/patch.diff 2>/dev/null || git apply --3way $SRC/patch.diff || { echo "PATCH DOES NOT APPLY"; exit 3; }
 demo_with=$(cargo test --offline -p $CRATE --test seed_demo 2>&1 | grep -E "^test result|error(\[|:)" | tail -2 | tr '\n' ' ')
 rm $WT/$CRATE/tests/seed_demo.rs
 suite=$(cargo nextest run --workspace --no-fail-fast --offline 2>&1 | grep -E "Summary" | tail -1)
@@ -24,7 +24,7 @@ echo "demo without change: $demo_without"
 echo "demo with change   : $demo_with"
 echo "suite with change  : $suite"
 # --- against the checks ---
-git -C /repo apply $SRC/patch.diff || exit 4
+git -C /repo apply $SRC/patch.diff 2>/dev/null || git -C /repo apply --3way $SRC/patch.diff || exit 4
 results=""
 for p in $PID $OTHERS; do
   out=$(bin/check $p 2>&1 | tail -3)
@@ -34,7 +34,7 @@ for p in $PID $OTHERS; do
   echo "$out" | cut -c1-700
   results="$results $p:$v"
 done
-git -C /repo checkout -- .
+git -C /repo reset -q --hard HEAD
 git -C /repo status --short | head -3
 cp $SRC/patch.diff $SRC/demo.rs $SRC/notes.md $OUT/ 2>/dev/null
 python3 - "$OUT" "$PID" "$NAME" "$CRATE" "$demo_without" "$demo_with" "$suite" "$results" <<'PY'
@@ -44,5 +44,5 @@ json.dump({"breaks_property":pid,"name":name,"demo_crate":crate,
  "needs_to_manifest":"see notes.md (written by the independent author of the change)",
  "verified_in_scratch_worktree":{"demo_without_change":dw,"demo_with_change":dc,"existing_suite_with_change":suite},
  "checks_run_against_it":{r.split(':')[0]:("VIOLATION reported" if r.split(':')[1]!='0' else "not detected") for r in results.split()},
- "commands":["git -C /repo apply patch.diff; bin/check %s; git -C /repo checkout -- ."%pid]},open(out+'/meta.json','w'),indent=1)
+ "commands":["git -C /repo apply patch.diff; bin/check %s; git -C /repo reset -q --hard HEAD"%pid]},open(out+'/meta.json','w'),indent=1)
 PY
